@@ -173,7 +173,7 @@ func runC01(p *core.Prog, r *core.Result) {
 					return false
 				}
 				hasRecord := find(func(c ssa.Value, v bool, arg func(ssa.Value) ssa.Value) bool {
-					ex, ok := c.(*ssa.Extract)
+					ex, ok := arg(c).(*ssa.Extract)
 					if !ok || ex.Index != 1 || !v {
 						return false
 					}
@@ -190,7 +190,7 @@ func runC01(p *core.Prog, r *core.Result) {
 					}
 					isCur := func(x ssa.Value) bool { return core.LoadOfField(x, pkgRoot, "runTarget", "data") }
 					isPrev := func(x ssa.Value) bool {
-						ex, ok := x.(*ssa.Extract)
+						ex, ok := arg(x).(*ssa.Extract)
 						if !ok || ex.Index != 0 {
 							return false
 						}
@@ -354,6 +354,18 @@ func checkListsFresh(p *core.Prog, r *core.Result, rule string) {
 					if cal != nil && (core.CalleeKey(cal) == "slices.Clone" || core.CalleeKey(cal) == "slices.Sorted" || core.CalleeKey(cal) == "slices.Collect") {
 						return
 					}
+					// a helper of the module that builds the slice: its returns are followed (the helper's parameters count
+					// as the caller's slices)
+					if cal != nil && core.InModule(cal) && cal.Blocks != nil && depth < 20 && cal.Signature.Results().Len() >= 1 {
+						for _, ret := range core.ReturnsOf(cal) {
+							for _, rv := range core.RetVals(ret) {
+								if _, isSlice := rv.Type().Underlying().(*types.Slice); isSlice {
+									back(rv, depth+10)
+								}
+							}
+						}
+						return
+					}
 					shared = "the result of a call (" + x.String() + ") whose backing array is not known to be private"
 				case *ssa.UnOp:
 					if x.Op != token.MUL {
@@ -445,12 +457,53 @@ func isFreeVarOf(addr ssa.Value, cell *ssa.Alloc) bool {
 	return ok && core.Binding(fv) == ssa.Value(cell)
 }
 
+// provablyNonEmptyString: a non-empty constant, a concatenation with one, or fmt.Sprintf of a constant format that
+// contains text outside its verbs.
+func provablyNonEmptyString(v ssa.Value) bool {
+	if s, ok := core.ConstString(v); ok {
+		return s != ""
+	}
+	switch x := v.(type) {
+	case *ssa.BinOp:
+		if x.Op == token.ADD {
+			return provablyNonEmptyString(x.X) || provablyNonEmptyString(x.Y)
+		}
+	case *ssa.Call:
+		if core.IsCallTo(x, "fmt", "Sprintf") && len(x.Call.Args) > 0 {
+			if f, ok := core.ConstString(x.Call.Args[0]); ok {
+				// strip verbs: what remains is literal text
+				lit := 0
+				for i := 0; i < len(f); i++ {
+					if f[i] == '%' {
+						i++
+						for i < len(f) && strings.ContainsRune("+-# 0123456789.[]*", rune(f[i])) {
+							i++
+						}
+						if i < len(f) && f[i] == '%' {
+							lit++
+						}
+						continue
+					}
+					lit++
+				}
+				return lit > 0
+			}
+		}
+	}
+	return false
+}
+
 // checkStampDependsOnDeps: R1.3.
 func checkStampDependsOnDeps(p *core.Prog, r *core.Result, m *evalModel) {
-	fn := m.Fn
 	evalErr := extractOf(m.Evaluate, 2)
 	depends := func(v ssa.Value) bool {
 		return core.DependsOn(v, core.SliceOpts{Stores: true, ThroughCall: func(c *ssa.Call) bool { return core.Callee(c) != nil }}, func(x ssa.Value) bool {
+			// a parameter of the body helper stands for the argument Evaluate passes
+			if prm, ok := x.(*ssa.Parameter); ok && m.BodySite != nil && prm.Parent() == m.BodyFn {
+				if i := paramIndex(m.BodyFn, prm); i >= 0 && i < len(m.BodySite.Call.Args) {
+					x = m.BodySite.Call.Args[i]
+				}
+			}
 			if m.DepDataEv != nil && x == m.DepDataEv || m.DepData != nil && x == m.DepData {
 				return true
 			}
@@ -488,8 +541,8 @@ func checkStampDependsOnDeps(p *core.Prog, r *core.Result, m *evalModel) {
 				}
 			}
 		}
-		core.Instrs(fn, func(in ssa.Instruction) {
-			if st, okk := in.(*ssa.Store); okk && core.IsField(st.Addr, pkgRoot, "runTarget", "data") && core.Dominates(m.Evaluate, st) && depends(st.Val) {
+		m.instrs(func(in ssa.Instruction) {
+			if st, okk := in.(*ssa.Store); okk && core.IsField(st.Addr, pkgRoot, "runTarget", "data") && m.dom(m.Evaluate, st) && depends(st.Val) {
 				ok = true
 			}
 		})
@@ -504,6 +557,34 @@ func checkStampDependsOnDeps(p *core.Prog, r *core.Result, m *evalModel) {
 }
 
 // checkDirHash: the directory hashing function covers names and fixes an order.
+// hashFeed: the call feeds bytes into a hash.Hash: h.Write(b), or io.WriteString(h, s) / fmt.Fprint*(h, …) with h a hash.
+func hashFeed(c ssa.CallInstruction) (ssa.Value, bool) {
+	isHash := func(v ssa.Value) bool {
+		v = core.Unwrap(v)
+		for {
+			switch x := v.(type) {
+			case *ssa.ChangeInterface:
+				v = x.X
+				continue
+			case *ssa.MakeInterface:
+				v = x.X
+				continue
+			}
+			break
+		}
+		n, ok := v.Type().(*types.Named)
+		return ok && n.Obj().Name() == "Hash" && n.Obj().Pkg() != nil && n.Obj().Pkg().Path() == "hash"
+	}
+	cc := c.Common()
+	if cc.IsInvoke() && cc.Method.Name() == "Write" && isHash(cc.Value) && len(cc.Args) == 1 {
+		return cc.Args[0], true
+	}
+	if core.IsCallTo(c, "io", "WriteString") && len(cc.Args) == 2 && isHash(cc.Args[0]) {
+		return cc.Args[1], true
+	}
+	return nil, false
+}
+
 func checkDirHash(p *core.Prog, r *core.Result, rule string) {
 	var dirFns []*ssa.Function
 	for _, f := range p.ModuleFuncs() {
@@ -515,10 +596,8 @@ func checkDirHash(p *core.Prog, r *core.Result, rule string) {
 			if core.IsMethod(c, "os", "File", "ReadDir") || core.IsCallTo(c, "os", "ReadDir") || core.IsMethod(c, "os", "File", "Readdir") || core.IsMethod(c, "os", "File", "Readdirnames") {
 				lists = true
 			}
-			if c.Common().IsInvoke() && c.Common().Method.Name() == "Write" {
-				if n, ok := c.Common().Value.Type().(*types.Named); ok && n.Obj().Name() == "Hash" {
-					hashes = true
-				}
+			if _, ok := hashFeed(c); ok {
+				hashes = true
 			}
 		}
 		if lists && hashes {
@@ -549,10 +628,11 @@ func checkDirHash(p *core.Prog, r *core.Result, rule string) {
 		}
 		named := false
 		for _, c := range core.Calls(f) {
-			if !(c.Common().IsInvoke() && c.Common().Method.Name() == "Write") {
+			fed, isFeed := hashFeed(c)
+			if !isFeed {
 				continue
 			}
-			if core.DependsOn(c.Common().Args[0], core.SliceOpts{Stores: true, Helpers: true, ThroughCall: pure}, func(v ssa.Value) bool {
+			if core.DependsOn(fed, core.SliceOpts{Stores: true, Helpers: true, ThroughCall: pure}, func(v ssa.Value) bool {
 				cc, ok := v.(*ssa.Call)
 				return ok && cc.Call.IsInvoke() && cc.Call.Method.Name() == "Name"
 			}) {
@@ -760,9 +840,12 @@ func checkGeneratorLinking(p *core.Prog, r *core.Result) {
 			continue
 		}
 		if core.DependsOn(vals[0], core.SliceOpts{Stores: true, ThroughCall: func(*ssa.Call) bool { return true }}, func(v ssa.Value) bool { return core.LoadOfField(v, pkgRoot, "sourceFile", "generator") }) {
-			nonNil := holds(p, ret, true, func(v ssa.Value) bool {
+			nonNil := p.FactsAt(ret).Find(func(v ssa.Value, val bool) bool {
 				b, ok := v.(*ssa.BinOp)
-				return ok && b.Op == token.NEQ && core.LoadOfField(b.X, pkgRoot, "sourceFile", "generator") && core.IsNilConst(b.Y)
+				if !ok || !core.LoadOfField(b.X, pkgRoot, "sourceFile", "generator") || !core.IsNilConst(b.Y) {
+					return false
+				}
+				return b.Op == token.NEQ && val || b.Op == token.EQL && !val
 			})
 			if nonNil {
 				okDeps = true
@@ -945,6 +1028,22 @@ func outputsVerifiedAt(p *core.Prog, fn *ssa.Function, at ssa.Instruction, depth
 					}
 				} else if types.Implements(v.Type(), errorIface()) && !core.IsNilConst(v) {
 					if nn, known := p.FactsAt(at).ErrNonNil(res); known && !nn {
+						excluded = true
+					}
+				} else if provablyNonEmptyString(v) {
+					// the helper names what is missing in a string that cannot be empty; the caller knows it got ""
+					if p.FactsAt(at).Find(func(c ssa.Value, val bool) bool {
+						b, ok := c.(*ssa.BinOp)
+						if !ok || (b.Op != token.EQL && b.Op != token.NEQ) {
+							return false
+						}
+						for _, pr := range [][2]ssa.Value{{b.X, b.Y}, {b.Y, b.X}} {
+							if s, isConst := core.ConstString(pr[1]); isConst && s == "" && pr[0] == res {
+								return (b.Op == token.EQL) == val
+							}
+						}
+						return false
+					}) {
 						excluded = true
 					}
 				}
